@@ -288,6 +288,101 @@ pub fn check_file(data: &[u8], ops: &[Op]) -> R {
     Ok(())
 }
 
+/// The (deprecated, still public) `anstream::Buffer` writer: pass-through must forward every byte unchanged and report
+/// what the buffer really took, call by call (the buffer is inspected between calls through `AutoStream<&mut Buffer>`).
+#[allow(deprecated)]
+pub fn check_buffer(data: &[u8], ops: &[Op]) -> R {
+    let mut b = anstream::Buffer::new();
+    for (i, op) in ops.iter().enumerate() {
+        let before = b.as_bytes().len();
+        let r = {
+            let mut s = AutoStream::always_ansi(&mut b);
+            let r = drive(&mut s, data, std::slice::from_ref(op));
+            choice_is("always-buffer", s.current_choice(), ColorChoice::AlwaysAnsi)?;
+            r.into_iter().next().unwrap_or(Res::Unit)
+        };
+        let added = b.as_bytes()[before..].to_vec();
+        let offered: &[u8] = match op {
+            Op::Write(a, z) | Op::WriteAll(a, z) | Op::WriteFmt(a, z) | Op::WriteVectored(a, _, z) => &data[*a..*z],
+            Op::Flush => &[],
+        };
+        match (op, &r) {
+            (Op::Write(..), Res::N(n)) | (Op::WriteVectored(..), Res::N(n)) => {
+                if *n != added.len() || *n > offered.len() || added != offered[..*n] {
+                    return Err(("c08:always-buffer:count".into(), format!("call {i} {op:?} on a Buffer holding {before} bytes returned {n}; the buffer grew by {} bytes {:?}, offered {:?}", added.len(), show(&added[..added.len().min(40)]), show(&offered[..offered.len().min(40)]))));
+                }
+            }
+            (Op::WriteAll(..), Res::Unit) | (Op::WriteFmt(..), Res::Unit) => {
+                if added != offered {
+                    return Err(("c08:always-buffer:bytes".into(), format!("call {i} {op:?}: the buffer grew by {:?}, offered {:?}", show(&added[..added.len().min(40)]), show(&offered[..offered.len().min(40)]))));
+                }
+            }
+            (Op::Flush, Res::Unit) => {}
+            (op, r) => return Err(("c08:always-buffer:result".into(), format!("call {i} {op:?} returned {r:?}"))),
+        }
+    }
+    // stripping mode over a Buffer == strip stream over a Buffer
+    let mut strip = StripStream::new(anstream::Buffer::new());
+    let r_strip = drive(&mut strip, data, ops);
+    let mut never = AutoStream::never(anstream::Buffer::new());
+    let r_never = drive(&mut never, data, ops);
+    same("never-buffer", "never(Buffer)", &r_never, &r_strip, ops)?;
+    same_bytes("never-buffer", "never(Buffer)", never.into_inner().as_bytes(), strip.into_inner().as_bytes())?;
+    Ok(())
+}
+
+/// `Box<dyn Write + Send>` and `&mut dyn Write` are stream kinds with their own trait impls
+pub fn check_dyn_kinds(data: &[u8], ops: &[Op]) -> R {
+    let mut plain: Vec<u8> = vec![];
+    let r_plain = drive(&mut plain, data, ops);
+    let mut strip = StripStream::new(Vec::new());
+    let r_strip = drive(&mut strip, data, ops);
+    let strip_bytes = strip.into_inner();
+    // &mut dyn Write
+    let mut v: Vec<u8> = vec![];
+    {
+        let w: &mut dyn Write = &mut v;
+        let mut s = AutoStream::never(w);
+        let r = drive(&mut s, data, ops);
+        same("never-dynref", "never(&mut dyn Write)", &r, &r_strip, ops)?;
+        choice_is("never-dynref", s.current_choice(), ColorChoice::Never)?;
+        if s.is_terminal() {
+            return Err(("c08:never-dynref:is_terminal".into(), "&mut dyn Write reports to be a terminal".into()));
+        }
+    }
+    same_bytes("never-dynref", "never(&mut dyn Write)", &v, &strip_bytes)?;
+    let mut v: Vec<u8> = vec![];
+    {
+        let w: &mut dyn Write = &mut v;
+        let mut s = AutoStream::new(w, ColorChoice::Always);
+        let r = drive(&mut s, data, ops);
+        // a dyn Write forwards write_vectored through the default method (first non-empty slice), so only compare bytes
+        let _ = r;
+        choice_is("always-dynref", s.current_choice(), ColorChoice::AlwaysAnsi)?;
+    }
+    let _ = r_plain;
+    // Box<dyn Write + Send>
+    let shared = std::sync::Arc::new(std::sync::Mutex::new(Vec::<u8>::new()));
+    struct SendSink(std::sync::Arc<std::sync::Mutex<Vec<u8>>>);
+    impl Write for SendSink {
+        fn write(&mut self, buf: &[u8]) -> std::io::Result<usize> {
+            self.0.lock().unwrap().extend_from_slice(buf);
+            Ok(buf.len())
+        }
+        fn flush(&mut self) -> std::io::Result<()> {
+            Ok(())
+        }
+    }
+    let b: Box<dyn Write + Send> = Box::new(SendSink(shared.clone()));
+    let mut s = AutoStream::never(b);
+    let r = drive(&mut s, data, ops);
+    same("never-boxsend", "never(Box<dyn Write + Send>)", &r, &r_strip, ops)?;
+    choice_is("never-boxsend", s.current_choice(), ColorChoice::Never)?;
+    drop(s);
+    same_bytes("never-boxsend", "never(Box<dyn Write + Send>)", &shared.lock().unwrap(), &strip_bytes)?;
+    Ok(())
+}
+
 fn make_case(seed: u64, i: u64) -> Case {
     Case::new("c08").n(seed as i64).n(i as i64)
 }
@@ -325,6 +420,8 @@ fn generate(seed: u64, i: u64, maxlen: usize) -> Gen {
 fn run_case(g: &Gen, auto_too: bool) -> R {
     check_vec(&g.data, &g.ops, auto_too)?;
     check_boxed(&g.data, &g.ops, &g.script)?;
+    check_buffer(&g.data, &g.ops)?;
+    check_dyn_kinds(&g.data, &g.ops)?;
     if g.kind == 0 {
         check_file(&g.data, &g.ops)?;
     }
@@ -350,7 +447,7 @@ pub fn run(cfg: &Cfg) -> Stats {
                 st.nontrivial_hash(hash64(&key));
             }
             st.add("operations_applied_per_stream", g.ops.len() as u64);
-            st.add("streams_driven_in_lockstep", 12 + 5 + if g.kind == 0 { 2 } else { 0 });
+            st.add("streams_driven_in_lockstep", 12 + 5 + 6 + if g.kind == 0 { 2 } else { 0 });
             for op in &g.ops {
                 st.count(match op {
                     Op::Write(..) => "op_write",
